@@ -15,7 +15,9 @@ _schema(gdumpparser.GDumpParser, _transformer='Transformer', _namespace='Namespa
 
 GD = 'giscanner.gdumpparser.GDumpParser.'
 
-contract('xml.etree.ElementTree.Element.findall', params={'self': 'Element', 'path': 'str'}, returns='list[Element]',
+from givc.model import named_spec as _nsx, TypeSpec as _TSx, parse_spec as _psx   # noqa
+_nsx('ElementList', _TSx('list', (), False, _psx('Element'), region='xml.findall'))
+contract('xml.etree.ElementTree.Element.findall', params={'self': 'Element', 'path': 'str'}, returns='ElementList',
          pure_keys=['self', 'path'], trusted=True, note='children with that tag, in document order')
 FUNDAMENTAL_GTYPES = ('gchar', 'guchar', 'gboolean', 'gint', 'guint', 'glong', 'gulong', 'gint64', 'guint64', 'gfloat', 'gdouble',
                       'gchararray', 'gpointer', 'GType', 'void')
@@ -131,3 +133,41 @@ contract(MT + '_resolve_and_filter_type_list', params={'self': 'MainTransformer'
          },
          note='the loop runs over the given list while entries are removed from a copy: `loop1.iter_unchanged` and the frame '
               'obligations on the list arrays are what forbid filtering the list in place')
+
+
+# ---- signals reported by the type system ---------------------------------------------------------------------------------
+SG = "xmlnode.findall('signal')"
+
+
+def flag01(el, name):
+    return el.attrib.get(name, '0') == '1'
+
+
+def signal_matches(sig, el):
+    """name, run stage and the four flags as reported; one parameter per <param>, the first one being the instance"""
+    params = el.findall('param')
+    return sig.name == el.attrib['name'] and sig.when == el.attrib.get('when') and sig.no_recurse == flag01(el, 'no-recurse') \
+        and sig.detailed == flag01(el, 'detailed') and sig.action == flag01(el, 'action') and sig.no_hooks == flag01(el, 'no-hooks') \
+        and len(sig.parameters) == len(params) \
+        and (len(params) == 0 or sig.parameters[0].argname == 'object')
+
+
+contract(GD + '_introspect_signals',
+         params={'self': 'GDumpParser', 'node': 'Class|Interface', 'xmlnode': 'Element'},
+         ghost={'J': 'int'}, props=('C12',),
+         modifies=['node.signals[]', 'node.signals', '*.parent', '*.transfer'],
+         raises={'KeyError': 'True', 'ValueError': 'True', 'AssertionError': 'True'},
+         loops={1: {'index': 'I1', 'modifies': ['node.signals[]', '*.parent', '*.transfer'],
+                    'var_types': {'signal_info': 'Element'},
+                    'invariant': [
+                        'len(node.signals) == old(len(node.signals)) + I1',
+                        'implies(0 <= J and J < I1, is_fresh(node.signals[old(len(node.signals)) + J].parameters))',
+                        'implies(0 <= J and J < I1, signal_matches(node.signals[old(len(node.signals)) + J], %s[J]))' % SG]},
+                2: {'index': 'I2', 'modifies': ['parameters[]'], 'var_types': {'parameter': 'Element', 'parameters': 'list[Parameter]'},
+                    'invariant': ['is_fresh(parameters)', 'len(parameters) == I2',
+                                  "implies(I2 >= 1, parameters[0].argname == 'object')"]}},
+         ensures={
+             'C12.signals.one_per_reported': 'len(node.signals) == old(len(node.signals)) + len(%s)' % SG,
+             'C12.signals.name_stage_flags_parameters': 'implies(0 <= J and J < len(%s), '
+                                                        'signal_matches(node.signals[old(len(node.signals)) + J], %s[J]))' % (SG, SG),
+         })
